@@ -33,6 +33,7 @@ struct Shared {
 Shared* S;
 thread_local int tl_index = -1;          // index of the harness thread, -1 = not a harness loader
 thread_local std::string tl_loading;     // the name this thread is currently passing to load_time_zone
+thread_local int tl_depth = 0;           // factory invocations active on this thread (a factory may itself load another zone)
 
 class BytesSource : public cctz::ZoneInfoSource {
  public:
@@ -47,8 +48,14 @@ std::unique_ptr<cctz::ZoneInfoSource> gate_factory(
     const std::string& name, const std::function<std::unique_ptr<cctz::ZoneInfoSource>(const std::string&)>&) {
   std::unique_lock<std::mutex> l(S->m);
   S->calls[name]++;
-  if (++S->inflight > S->max_inflight) S->max_inflight = S->inflight;
-  if (S->inflight > 1) S->problems.push_back("factory invoked concurrently with another invocation (for '" + name + "')");
+  // an invocation nested inside another one on the same thread (the outer factory is loading a zone itself) is not
+  // "concurrent"; two threads inside the factory are
+  const bool outermost = tl_depth == 0;
+  ++tl_depth;
+  if (outermost) {
+    if (++S->inflight > S->max_inflight) S->max_inflight = S->inflight;
+    if (S->inflight > 1) S->problems.push_back("factory invoked concurrently with another invocation (for '" + name + "')");
+  }
   if (tl_loading != name) S->problems.push_back("factory for '" + name + "' invoked on a thread that is not inside load_time_zone('" + name + "') (thread is loading '" + tl_loading + "')");
   {
     // internally resolved names: UTC, UTC0 and well-formed fixed-offset names of at most 24 h
@@ -59,15 +66,27 @@ std::unique_ptr<cctz::ZoneInfoSource> gate_factory(
     }
     if (internal) S->problems.push_back("factory invoked for internally resolved name '" + name + "'");
   }
+  if (outermost && name.find("/alias/") != std::string::npos) {
+    // a factory that resolves an alias: it loads the target zone itself (same thread, nested) and then goes on working
+    std::string target = name; target.replace(target.find("/alias/"), 7, "/valid-target-of-alias/");
+    const std::string outer = tl_loading;
+    l.unlock();
+    tl_loading = target;
+    cctz::time_zone ttz;
+    if (!cctz::load_time_zone(target, &ttz)) { std::lock_guard<std::mutex> g(S->m); S->problems.push_back("nested load of '" + target + "' from inside the factory failed"); }
+    tl_loading = outer;
+    l.lock();
+  }
   const int idx = tl_index;
-  if (idx >= 0 && S->park_enabled) {
+  if (outermost && idx >= 0 && S->park_enabled) {
     S->parked[idx] = true;
     S->cv.notify_all();
     S->cv.wait(l, [&] { return S->released[idx]; });
     S->parked[idx] = false;
   }
-  --S->inflight;
-  const bool valid = name.find("valid") != std::string::npos;
+  if (outermost) --S->inflight;
+  --tl_depth;
+  const bool valid = name.find("valid") != std::string::npos || name.find("/alias/") != std::string::npos;
   l.unlock();
   if (valid) return std::unique_ptr<cctz::ZoneInfoSource>(new BytesSource(S->valid_bytes));
   if (name.find("garbage") != std::string::npos) return std::unique_ptr<cctz::ZoneInfoSource>(new BytesSource("TZif-not"));
@@ -242,7 +261,7 @@ static void gen_partitions(int k, std::vector<int>& lab, int next, std::vector<s
 }
 static std::string name_for(int label, int kindsel) {
   // kind of each name class: mostly valid data, sometimes missing / garbage / fixed / UTC
-  static const char* kinds[] = {"valid", "valid", "missing", "garbage", "fixed", "utc", "lookalike", "fixed24"};
+  static const char* kinds[] = {"valid", "alias", "missing", "garbage", "fixed", "utc", "lookalike", "fixed24"};
   const char* kd = kinds[(kindsel + label * 5) % 8];
   if (!strcmp(kd, "fixed")) { char b[32]; snprintf(b, sizeof b, "Fixed/UTC+%02d:00:00", 1 + label); return b; }
   if (!strcmp(kd, "fixed24")) return label % 2 ? "Fixed/UTC-24:00:00" : "Fixed/UTC+24:00:00";  // the limits of the fixed-offset range
@@ -270,7 +289,7 @@ static bool replay(const vf::Case& c, std::string* why) {
 static void run(const vf::Args& a, vf::Evidence& ev, vf::Reporter& rep) {
   ev.rule = "exhaustive: for k = 1..3 (quick) / 1..4 (thorough) loader threads, every order of {start thread i, release thread j} "
             "(a thread can only be released after it was started; each is parked inside the factory) x every partition of the "
-            "threads into same-name groups x name kinds (valid data, missing, garbage, fixed-offset incl. +-24h, UTC, fixed-offset look-alikes that are not fixed names), each schedule in a "
+            "threads into same-name groups x name kinds (valid data, an alias whose factory invocation itself loads the target zone before it goes on, missing, garbage, fixed-offset incl. +-24h, UTC, fixed-offset look-alikes that are not fixed names), each schedule in a "
             "forked child, followed by repeat loads on the controlling thread and on fresh threads; the two-thread schedules are also run "
             "late in the life of a process (after 300-9000 distinct failing/valid names were loaded, a sample of which is asked for again); quick additionally samples "
             "k = 4 schedules with rapidcheck. Observed in the factory: calling thread is inside load_time_zone of that name, "
